@@ -95,6 +95,7 @@ struct EvRec {
   size_t bytes, align;
 };
 static std::vector<EvRec> g_ev;
+static size_t g_ev_base = 0;     // first event of the release currently running (an `end` line runs two)
 static std::string g_oracle;   // oracle failures of the current op
 static int g_cur = 0;          // register executing the current op
 static void oracle(const std::string& s) { g_oracle += " !ORACLE(" + s + ")"; }
@@ -256,8 +257,8 @@ static void canary_fill(const Blk& b) {
 static void dtor_fn(void* vp) {
   auto* d = reinterpret_cast<DRec*>(vp);
   g_ev.push_back({'D', d->tag, nullptr, 0, 0});
-  for (auto& e : g_ev)
-    if (e.kind == 'p' || e.kind == 'u') {
+  for (size_t k = g_ev_base; k < g_ev.size(); ++k)
+    if (g_ev[k].kind == 'p' || g_ev[k].kind == 'u') {
       oracle("dtor_after_free tag " + std::to_string(d->tag));
       break;
     }
@@ -349,9 +350,10 @@ static void do_release(int i, bool destroy) {
   check_canaries(i, r.blocks.size());
   std::vector<int> expect;
   for (auto it = r.dtors.rbegin(); it != r.dtors.rend(); ++it) expect.push_back((*it)->tag);
+  g_ev_base = g_ev.size();
   if (destroy) r.res.reset(); else r.res->release();
   std::vector<int> got;
-  for (auto& e : g_ev) if (e.kind == 'D') got.push_back(e.id);
+  for (size_t k = g_ev_base; k < g_ev.size(); ++k) if (g_ev[k].kind == 'D') got.push_back(g_ev[k].id);
   if (got != expect) {
     std::ostringstream os;
     os << "dtor_order expected";
